@@ -13,6 +13,7 @@
      f2i, i2f  int64(float64), float64(int64)              (hardware conversions)
      fmtf      strconv.FormatFloat(v, 'g', -1, 64)
      parsef    strconv.ParseFloat(s, 64)      (None = error)
+     fmtp      protojson text of a message (MessageToString), by its marshalled bytes
      compress / decompress / encrypt / decrypt             (zlib, block cipher) *)
 From Coq Require Import ZArith List Bool.
 From FV Require Import Generated.Consts Lib.Wrap Lib.LE Lib.Varint Lib.Dec.
@@ -30,7 +31,8 @@ Inductive gov : Type :=
 | GF32 (bits : Z)
 | GF64 (bits : Z)
 | GStr (s : list Z)
-| GBytes (b : list Z).
+| GBytes (b : list Z)
+| GProto (m : list Z).             (* a proto.Message, represented by its proto.Marshal bytes *)
 
 (* what Body_ holds afterwards: int64 / float64 / string / []byte / nil *)
 Inductive body : Type :=
@@ -38,14 +40,16 @@ Inductive body : Type :=
 | BInt (z : Z)
 | BFloat (bits : Z)
 | BStr (s : list Z)
-| BBytes (b : list Z).
+| BBytes (b : list Z)
+| BProto (m : list Z).
 
 Record oracles : Type := mkOr {
   widen : Z -> Z;
   f2i : Z -> Z;
   i2f : Z -> Z;
   fmtf : Z -> list Z;
-  parsef : list Z -> option Z }.
+  parsef : list Z -> option Z;
+  fmtp : list Z -> list Z }.
 
 (* SetBody: every integer kind becomes int64 (uint and uint64 wrap), float32 widens *)
 Definition set_body (o : oracles) (v : gov) : body :=
@@ -57,6 +61,7 @@ Definition set_body (o : oracles) (v : gov) : body :=
   | GF64 bits => BFloat bits
   | GStr s => BStr s
   | GBytes b => BBytes b
+  | GProto m => BProto m
   end.
 
 (* BodyToInt *)
@@ -72,7 +77,7 @@ Definition body_to_int (o : oracles) (b : body) : option Z :=
       | 8%nat => Some (wraps 64 (le_get l))                 (* int64(uint64) *)
       | _ => None
       end
-  | BNil => None
+  | BNil | BProto _ => None
   end.
 
 (* BodyToFloat *)
@@ -87,7 +92,7 @@ Definition body_to_float (o : oracles) (b : body) : option Z :=
       | 8%nat => Some (le_get l)
       | _ => None
       end
-  | BNil => None
+  | BNil | BProto _ => None
   end.
 
 Definition nil_text : list Z := [60; 110; 105; 108; 62].     (* fmt %v of nil: "<nil>" *)
@@ -99,6 +104,7 @@ Definition body_to_string (o : oracles) (b : body) : list Z :=
   | BBytes l => l
   | BInt z => format_int z                                  (* base 10 *)
   | BFloat f => fmtf o f
+  | BProto m => fmtp o m
   | BNil => nil_text
   end.
 
@@ -109,6 +115,7 @@ Definition body_to_bytes (b : body) : list Z :=
   | BBytes l => l
   | BInt z => put_varint z
   | BFloat f => put_uvarint f
+  | BProto m => m                                           (* proto.Marshal *)
   | BNil => []
   end.
 
@@ -166,6 +173,22 @@ Definition refuse_with (p : packet) (command ec : Z) : option (Z * packet) :=
    when none is registered (ack_id = GetPairingAckID, 0 = none) *)
 Definition refuse (ack_id : Z -> Z) (p : packet) (ec : Z) : option (Z * packet) :=
   refuse_with p (if ack_id (cmd p) =? 0 then cmd p else ack_id (cmd p)) ec.
+
+(* Reply(ack): under the id registered for the ack's type (mid = GetMessageIDOf(ack), 0 = none:
+   the request's own command) *)
+Definition reply (mid : Z) (p : packet) (b : body) : option (Z * packet) :=
+  reply_with p (if mid =? 0 then cmd p else mid) b.
+
+(* Decode(): re-create the message registered for the command id from the wire form.
+   registered = a type is registered under cmd p; valid = proto.Unmarshal accepts the bytes.
+   None = error returned (the packet is unchanged). *)
+Definition decode (registered valid : bool) (p : packet) : option packet :=
+  if registered then
+    match body_to_bytes (pbody p) with
+    | [] => Some (with_body p (BProto []))
+    | w => if valid then Some (with_body p (BProto w)) else None
+    end
+  else None.
 
 (* ---- across the wire (codec/marshal.go + the header fields each codec carries) ------- *)
 Record coders : Type := mkCo {
